@@ -219,6 +219,28 @@ class UnquoteModel(object):
             return bad[0]
         return "decode" if "decode" in outcomes else "keep"
 
+    def malformed(self, item, params, prefix=b""):
+        """what the loop body appends for a piece that starts no valid escape (finite-domain interpretation)"""
+        from .microeval import _Interp, Native, _Break, _Continue, _Return
+        rec = bytearray(prefix)
+        env = dict(self.defaults)
+        env.update(params)
+        env[self.itemvar] = item
+        for alias, meth in self.aliases.items():
+            env[alias] = Native(getattr(rec, meth))
+        env[self.resvar] = rec
+        it = _Interp(self.repo, self.q, env, 0)
+        try:
+            it.block(self.loop.body)
+        except (_Break, _Continue):
+            pass
+        except _Return:
+            raise AnalysisError("quote._unquote_impl: return inside the decoding loop")
+        except Unknown as e:
+            raise AnalysisError("quote._unquote_impl: loop body not interpretable on %r: %s" % (item, e))
+        out = bytes(env[self.resvar]) if env[self.resvar] is not rec else bytes(rec)
+        return out[len(prefix):] if out.startswith(prefix) else out
+
     def _decision_by_leaves(self, byte, params):
         """'decode' | 'keep' | 'drop' for byte value (0..255) under params dict."""
         env = dict(self.defaults)
